@@ -2,3 +2,4 @@ R BHS.Crash
 R BHS.ChainFields
 X Crash.crash_state Crash.fault_kind Crash.struct_validb Crash.persistb Crash.crash_run ChainFields.restart
 X Crash.same_ids
+X Crash.commit_crash_state
